@@ -41,6 +41,10 @@ func priority(change schema.Change) int {
 	case *schema.ModifySchema:
 		// each modifyTable should have a single change since we apply `flat` before we sort.
 		return priority(c.Changes[0])
+	// Tables are created first (in the order of their dependencies), as any
+	// of the changes below may reference them, e.g. a modified foreign-key.
+	case *schema.AddTable:
+		return 0
 	case *schema.AddColumn:
 		return 1
 	case *schema.DropIndex, *schema.DropForeignKey, *schema.DropAttr, *schema.DropCheck:
